@@ -46,9 +46,15 @@ M = [
  ("ring-bond-mismatch-allowed", "selfies/utils/smiles_utils.py", "        order=max(lorder, rorder)", "        order=min(lorder, rorder) if (lbond_char and rbond_char) else max(lorder, rorder)", []),
  ("decoder-module-rings", "selfies/decoder.py", "    rings = []\n", "    global _RINGS\n    _RINGS.clear()\n    rings = _RINGS\n", ["C19"]),
  ("encoder-module-ringlog", "selfies/utils/smiles_utils.py", "    ring_log = dict()  # keep track of hanging ring numbers\n", "    ring_log = _RING_LOG  # keep track of hanging ring numbers\n    ring_log.clear()\n", ["C19"]),
+ ("atom-instance-cache", "selfies/grammar_rules.py", "    bond_info, atom_fac = output\n    atom = atom_fac()", "    bond_info, atom_fac = output\n    atom = atom_fac() if symbol in _BUILTIN else _INSTANCES.setdefault(symbol, atom_fac())", ["C02", "C11", "C19"]),
+ ("encoder-module-token-deque", "selfies/utils/smiles_utils.py", "    tokens = deque(tokenize_smiles(smiles))\n", "    tokens = _TOKENS\n    tokens.clear()\n    tokens.extend(tokenize_smiles(smiles))\n", ["C19", "C11"]),
+ ("kekulize-module-scratch", "selfies/mol_graph.py", "        pruned_ds = [list() for _ in range(len(kept_nodes))]", "        del _PRUNED[:]\n        _PRUNED.extend(list() for _ in range(len(kept_nodes)))\n        pruned_ds = _PRUNED", ["C19"]),
  ("stereo-mark-ring-swap", "selfies/encoder.py", '        bond_char = "-" if (lbond.stereo is None) else lbond.stereo\n        bond_char += "-" if (rbond.stereo is None) else rbond.stereo', '        bond_char = "-" if (lbond.stereo is None) else lbond.stereo\n        bond_char += "-" if (rbond.stereo is None) else (rbond.stereo if lbond.stereo is None else lbond.stereo)', ["C04"]),
 ]
 PRE = {
+ "atom-instance-cache": ("selfies/grammar_rules.py", "_PROCESS_ATOM_CACHE = _build_atom_cache()", "_PROCESS_ATOM_CACHE = _build_atom_cache()\n_BUILTIN = set(_PROCESS_ATOM_CACHE)\n_INSTANCES = dict()"),
+ "encoder-module-token-deque": ("selfies/utils/smiles_utils.py", "def smiles_to_mol(", "_TOKENS = deque()\n\n\ndef smiles_to_mol("),
+ "kekulize-module-scratch": ("selfies/mol_graph.py", "@dataclass\nclass Attribution:", "_PRUNED = []\n\n\n@dataclass\nclass Attribution:"),
  "decoder-module-rings": ("selfies/decoder.py", "def decoder(", "_RINGS = []\n\n\ndef decoder("),
  "encoder-module-ringlog": ("selfies/utils/smiles_utils.py", "def _derive_mol_from_tokens(", "_RING_LOG = dict()\n\n\ndef _derive_mol_from_tokens("),
  "atom-cache-stores-instance": ("selfies/grammar_rules.py", "_PROCESS_ATOM_CACHE = _build_atom_cache()", "_PROCESS_ATOM_CACHE = _build_atom_cache()\n_BUILTIN = set(_PROCESS_ATOM_CACHE)"),
